@@ -1,7 +1,9 @@
 ---- MODULE Hits ----
 (* P-layer for C10 (also used by C19): every response Squid delivers that carries an origin version marker has the
    status, the end-to-end header marker and the body bytes of exactly ONE response the origin previously sent for that
-   cache key; a body presented as complete has that version's full length; two versions are never mixed. *)
+   cache key; a body presented as complete has that version's full length; two versions are never mixed; and an answer
+   taken from the cache (a hit, or a stored response confirmed by a 304) whose version the origin had sent completely is
+   delivered completely. *)
 EXTENDS Naturals, Integers, FiniteSets
 VARIABLES vers
 hvars == <<vers>>
@@ -9,7 +11,8 @@ NoVal == 0 - 1
 HInit == vers = <<>>
 Ext(f, k, v) == [x \in DOMAIN f \cup {k} |-> IF x = k THEN v ELSE f[x]]
 \* the origin starts sending version v for key: status, full body length; whole = it finished sending it
-OResp(v, key, status, len) == vers' = Ext(vers, v, [key |-> key, status |-> status, len |-> len])
+\* whole: the origin sends all len bytes (FALSE: it drops the connection in the middle)
+OResp(v, key, status, len, whole) == vers' = Ext(vers, v, [key |-> key, status |-> status, len |-> len, whole |-> whole])
 \* hv: version named by the response headers (NoVal: Squid-generated reply); bv: version of the body bytes (NoVal: no body)
 \* canary: value of the end-to-end marker header (must equal hv)
 OneVersion(key, status, hv, bv, canary, blen, intact, complete) ==
@@ -22,7 +25,9 @@ OneVersion(key, status, hv, bv, canary, blen, intact, complete) ==
     /\ intact
     /\ blen <= vers[hv].len
     /\ (complete => blen = vers[hv].len)
-CResp(key, status, hv, bv, canary, blen, intact, complete) ==
+\* fromCache: Squid says it answered from the cache (Cache-Status hit, or a revalidation answered 304)
+CResp(key, status, hv, bv, canary, blen, intact, complete, fromCache) ==
   /\ OneVersion(key, status, hv, bv, canary, blen, intact, complete)
+  /\ (fromCache /\ hv # NoVal /\ hv \in DOMAIN vers /\ vers[hv].whole) => complete
   /\ UNCHANGED vers
 ====
